@@ -53,39 +53,22 @@ func c17aFail(out *vlib.Out, sig, what, replay string) {
 // ---------------------------------------------------------------------------------------------
 // stdout capture: the handler creates its logger on os.Stdout
 
-type c17aCapture struct {
-	f   *os.File
-	old *os.File
-	off int64
-}
+// c17aCapture diverts file descriptors 1 and 2 (vc17.FDCapture): the connection loggers and the statistics
+// are created on os.Stdout, the Redis logger on os.Stderr, and whatever else the process prints goes there too.
+type c17aCapture struct{ fds *vc17.FDCapture }
 
 func c17aStart() *c17aCapture {
-	f, err := os.CreateTemp("", "verif-c17-stdout")
+	fds, err := vc17.CaptureFDs()
 	if err != nil {
 		panic(err)
 	}
-	c := &c17aCapture{f: f, old: os.Stdout}
-	os.Stdout = f
-	return c
+	return &c17aCapture{fds}
 }
 
 // take returns what was written since the last call.
-func (c *c17aCapture) take() string {
-	st, err := c.f.Stat()
-	if err != nil {
-		panic(err)
-	}
-	b := make([]byte, st.Size()-c.off)
-	_, _ = c.f.ReadAt(b, c.off)
-	c.off = st.Size()
-	return string(b)
-}
+func (c *c17aCapture) take() string { return c.fds.Take() }
 
-func (c *c17aCapture) stop() {
-	os.Stdout = c.old
-	c.f.Close()
-	os.Remove(c.f.Name())
-}
+func (c *c17aCapture) stop() { c.fds.Stop() }
 
 // ---------------------------------------------------------------------------------------------
 // scripted client connection
@@ -95,9 +78,11 @@ type c17aConn struct {
 	mu            sync.Mutex
 	chunks        [][]byte
 	readErr       error
-	readErrAfter  int // the read error is returned once this many chunks have been read
+	readData      []byte // handed back together with readErr (buffering transports do that)
+	readErrAfter  int    // the read error is returned once this many chunks have been read
 	reads         int
 	writeErr      error
+	writePartial  bool
 	closeErr      error
 	dlErr         error
 	dlFailAt      int
@@ -114,7 +99,7 @@ func (c *c17aConn) Read(p []byte) (int, error) {
 	c.mu.Lock()
 	if c.readErr != nil && c.reads >= c.readErrAfter {
 		c.mu.Unlock()
-		return 0, c.readErr
+		return copy(p, c.readData), c.readErr
 	}
 	if len(c.chunks) > 0 {
 		n := copy(p, c.chunks[0])
@@ -125,12 +110,15 @@ func (c *c17aConn) Read(p []byte) (int, error) {
 	}
 	c.mu.Unlock()
 	if c.readErr != nil {
-		return 0, c.readErr
+		return copy(p, c.readData), c.readErr
 	}
 	return 0, io.EOF
 }
 func (c *c17aConn) Write(p []byte) (int, error) {
 	if c.writeErr != nil {
+		if c.writePartial {
+			return (len(p) + 1) / 2, c.writeErr
+		}
 		return 0, c.writeErr
 	}
 	return len(p), nil
@@ -359,7 +347,11 @@ func TestVerifC17App(t *testing.T) {
 			conn.chunks = [][]byte{world.tag, []byte("application data after the tag")}
 		}
 		e := c.n.Go()
-		switch c.pos {
+		if strings.HasSuffix(c.pos, "+data") {
+			conn.readData = []byte("bytes handed back with the error")
+		}
+		conn.writePartial = strings.HasSuffix(c.pos, "+partial")
+		switch strings.TrimSuffix(strings.TrimSuffix(c.pos, "+data"), "+partial") {
 		case "SetDeadline#0", "SetDeadline#1", "SetDeadline#2":
 			conn.dlErr, conn.dlFailAt = e, int(c.pos[len(c.pos)-1]-'0')
 		case "Read#0":
@@ -423,11 +415,13 @@ func TestVerifC17App(t *testing.T) {
 		}
 		for _, n := range vc17.Shapes("read", st, cl.Addr) {
 			cases = append(cases, c17aCase{"none", "Read#0", n}, c17aCase{"none", "Read#1", n},
-				c17aCase{"nomatch", "Read#0", n}, c17aCase{"nomatch", "Read#1", n}, c17aCase{"nomatch", "Read#last", n})
-			found = append(found, c17aCase{"found", "Read#last", n})
+				c17aCase{"nomatch", "Read#0", n}, c17aCase{"nomatch", "Read#1", n}, c17aCase{"nomatch", "Read#last", n},
+				c17aCase{"none", "Read#0+data", n}, c17aCase{"none", "Read#1+data", n},
+				c17aCase{"nomatch", "Read#0+data", n}, c17aCase{"nomatch", "Read#1+data", n}, c17aCase{"nomatch", "Read#last+data", n})
+			found = append(found, c17aCase{"found", "Read#last", n}, c17aCase{"found", "Read#last+data", n})
 		}
 		for _, n := range vc17.Shapes("write", st, cl.Addr) {
-			found = append(found, c17aCase{"found", "Write", n})
+			found = append(found, c17aCase{"found", "Write", n}, c17aCase{"found", "Write+partial", n})
 		}
 		for _, n := range vc17.Shapes("close", st, cl.Addr) {
 			found = append(found, c17aCase{"found", "Close", n})
@@ -447,29 +441,51 @@ func TestVerifC17App(t *testing.T) {
 
 	// ---- (C) handleNewConn: the descriptor of a closed connection cannot be duplicated
 	c17aFileError(out)
+	taken()
+	c17aOrigDst(out, taken)
 
-	// ---- (D) a GeoIP database that cannot answer for the client's address family: the station's GeoIP
-	// wrapper on two IPv4-only MaxMind databases; the reader's error for an IPv6 lookup repeats the address
-	if db, err := c17aIPv4OnlyGeoIP(t.TempDir()); err != nil {
-		c17aFail(out, "C17:harness-geoip-database", "cannot open the IPv4-only test databases: "+err.Error(), "geoip")
-	} else {
+	// ---- (D) the station's GeoIP wrapper on every combination of database shapes: country and ASN database each
+	// absent / IPv4-only / dual-stack / failing inside the reader, for every client family (the reader's error
+	// for an IPv6 lookup in an IPv4-only database repeats the address, whichever of the two lookups meets it)
+	{
+		dir := t.TempDir()
 		w := c17aNewWorld(covertAddr, map[pb.TransportType]cj.Transport{pb.TransportType_Min: min.Transport{}})
-		w.rm.GeoIP = db
-		for _, cl := range clients {
-			conn := newC17aConn(st.TCP, cl.Addr.TCP)
-			conn.chunks = [][]byte{junk}
-			taken()
-			cm.handleNewTCPConn(w.rm, conn, w.phantom)
-			logged := taken()
-			out.Checked()
-			out.Count("conn:geoip-fails")
-			if cl.Addr.TCP.IP.To4() == nil && !strings.Contains(logged, "Failed to get") {
-				c17aFail(out, "C17:harness-geoip-database", "the IPv6 lookup in the IPv4-only database did not fail: "+logged, "geoip|"+cl.Name)
+		failed := 0
+		for _, ccShape := range vc17.DBShapes {
+			for _, asnShape := range vc17.DBShapes {
+				ccPath, asnPath, err := vc17.WriteDBs(dir, ccShape, asnShape)
+				if err != nil {
+					c17aFail(out, "C17:harness-geoip-database", "cannot write the test databases: "+err.Error(), "geoipdb|write")
+					continue
+				}
+				db, err := geoip.New(&geoip.DBConfig{CCDBPath: ccPath, ASNDBPath: asnPath})
+				if db == nil {
+					c17aFail(out, "C17:harness-geoip-database", fmt.Sprintf("geoip.New refused the %s / %s test databases: %v", ccShape, asnShape, err), "geoipdb|open")
+					continue
+				}
+				w.rm.GeoIP = db
+				for _, cl := range clients {
+					conn := newC17aConn(st.TCP, cl.Addr.TCP)
+					conn.chunks = [][]byte{junk}
+					taken()
+					cm.handleNewTCPConn(w.rm, conn, w.phantom)
+					logged := taken()
+					out.Checked()
+					out.Count("conn:geoipdb:cc-" + ccShape + ":asn-" + asnShape)
+					if strings.Contains(logged, "Failed to get") {
+						failed++
+						out.Count("conn:geoipdb:lookup-failed:" + cl.Name)
+					}
+					if hit := vc17.Scan(logged, union); hit != "" {
+						c17aFail(out, "C17:geoip-error-names-client",
+							fmt.Sprintf("country database %s, ASN database %s, %s client: the station's output contains %s: %s", ccShape, asnShape, cl.Name, hit, c17aClip(logged, hit)),
+							fmt.Sprintf("geoipdb|%s|%s|%s", ccShape, asnShape, cl.Name))
+					}
+				}
 			}
-			if hit := vc17.Scan(logged, union); hit != "" {
-				c17aFail(out, "C17:geoip-error-names-client",
-					fmt.Sprintf("%s client, GeoIP lookup fails: the station's output contains %s: %s", cl.Name, hit, c17aClip(logged, hit)), "geoip|"+cl.Name)
-			}
+		}
+		if failed == 0 {
+			c17aFail(out, "C17:harness-geoip-database", "no lookup failed on any combination of database shapes", "geoipdb")
 		}
 	}
 
@@ -569,5 +585,71 @@ func c17aFileError(out *vlib.Out) {
 	if hit := vc17.Scan(lb.String(), vc17.Needles(clientIP)); hit != "" {
 		c17aFail(out, "C17:file-error-logs-client-address",
 			"handleNewConn logs the raw error of clientConn.File(), which names the remote endpoint: "+c17aClip(lb.String(), hit), "fileerror")
+	}
+}
+
+// c17aOrigDst: handleNewConn with real TCP connections on loopback from distinctive source addresses.  They
+// were not redirected by a DNAT rule, so looking up their original destination fails; what handleNewConn logs
+// then (shared logger, standard streams) must not name the client endpoint — package net names the *os.File of
+// a connection after both endpoints, the socket-option error is a bare errno.
+func c17aOrigDst(out *vlib.Out, taken func() string) {
+	type ep struct{ listen, from string }
+	for _, e := range []ep{{"127.0.0.1", "127.44.55.66"}, {"127.0.0.1", "127.201.7.9"}, {"::1", "::1"}} {
+		network := "tcp4"
+		if strings.Contains(e.listen, ":") {
+			network = "tcp6"
+		}
+		ln, err := net.ListenTCP(network, &net.TCPAddr{IP: net.ParseIP(e.listen)})
+		if err != nil {
+			out.Note("C17 app: cannot listen on " + e.listen + ": " + err.Error())
+			continue
+		}
+		d := net.Dialer{LocalAddr: &net.TCPAddr{IP: net.ParseIP(e.from)}, Timeout: 3 * time.Second}
+		c, err := d.Dial(network, ln.Addr().String())
+		if err != nil {
+			out.Note("C17 app: cannot dial from " + e.from + ": " + err.Error())
+			ln.Close()
+			continue
+		}
+		srv, err := ln.AcceptTCP()
+		if err != nil {
+			out.Note("C17 app: accept failed: " + err.Error())
+			c.Close()
+			ln.Close()
+			continue
+		}
+		client := c.LocalAddr().(*net.TCPAddr)
+		c.Close() // should the lookup succeed after all, the handler reads EOF and returns
+		var lb bytes.Buffer
+		old := sharedLogger
+		sharedLogger = log.New(&lb, "[REG] ", golog.Ldate|golog.Lmicroseconds)
+		rm := cj.NewRegistrationManager(&cj.RegConfig{})
+		rm.GeoIP = &MockGeoIP{}
+		taken()
+		done := make(chan struct{})
+		go func() { defer close(done); newConnManager(nil).handleNewConn(rm, srv) }()
+		select {
+		case <-done:
+		case <-time.After(30 * time.Second):
+			srv.Close()
+			<-done
+		}
+		sharedLogger = old
+		ln.Close()
+		logged := lb.String() + taken()
+		out.Checked()
+		out.Count("conn:real-loopback:" + e.from)
+		if strings.Contains(logged, "failed to getOriginalDst") {
+			out.Count("conn:real-loopback:original-dst-lookup-failed")
+		}
+		for _, re := range vc17.LoopbackNeedles(client) {
+			if loc := re.FindStringIndex(logged); loc != nil {
+				c17aFail(out, "C17:conn-log-has-client-address",
+					fmt.Sprintf("handleNewConn with a real connection from %s (not redirected: the original-destination lookup fails): the station's output names the client endpoint: %s",
+						client, c17aClip(logged, strings.ToLower(logged[loc[0]:loc[1]]))),
+					"origdst|"+e.from)
+				break
+			}
+		}
 	}
 }
